@@ -115,6 +115,7 @@ type c19Field struct {
 type c19Req struct {
 	Fields  []c19Field `json:"fields"` // in submission order; duplicates allowed
 	RawJSON string     `json:"raw_json,omitempty"`
+	FaultAt int        `json:"fault_at,omitempty"` // fail this backend call of the request (0 = none)
 }
 
 type c19Case struct {
@@ -182,9 +183,16 @@ func c19Run(c c19Case) (*Violation, map[string]bool) {
 			}
 			q.FormMulti = fm
 		}
+		if rq.FaultAt > 0 {
+			q.Fault = harness.FaultPlan{At: rq.FaultAt, Kind: "generic"}
+		}
 		r := w.Do(q)
 		post := w.Store.Snapshot()
 		mails := w.Mail.Since(nm)
+		faulted := r.Fired != ""
+		if faulted {
+			flags["fault-fired"] = true
+		}
 		pid, pw := vals[pidField], vals["password"]
 		confirmPW, hasConfirm := vals["confirm_password"]
 		_ = hasConfirm
@@ -216,6 +224,13 @@ func c19Run(c c19Case) (*Violation, map[string]bool) {
 		default:
 			flags["created"] = true
 			nu, ok := post.Users[pid]
+			if faulted && !ok {
+				// a backend call failed before the account existed: nothing to create, nobody to log in
+				if r.UID() != "" || !usersEqual(pre, post) {
+					return violation("C19", "failed-registration-left-traces", "%s failed in the backend (%s) before %q existed, yet storage changed or the session user is %q", step, r.Fired, pid, r.UID()), flags
+				}
+				continue
+			}
 			if !ok || len(post.Users) != len(pre.Users)+1 {
 				return violation("C19", "valid-registration-did-not-create-exactly-one", "%s is valid for new pid %q: users before %d after %d (created %v, status %d err %v)", step, pid, len(pre.Users), len(post.Users), ok, r.Status, r.Rec.HandlerErr), flags
 			}
@@ -249,10 +264,13 @@ func c19Run(c c19Case) (*Violation, map[string]bool) {
 				if r.UID() != "" {
 					return violation("C19", "logged-in-before-confirmation", "%s: with e-mail confirmation in force the new user %q was logged in", step, pid), flags
 				}
+				if faulted {
+					continue // whether the confirmation got started depends on where the failure hit
+				}
 				if len(mails) != 1 || len(mails[0].To) != 1 || mails[0].To[0] != nu.Email || nu.ConfirmSelector == "" {
 					return violation("C19", "confirmation-not-started", "%s: new user %q: mails %d selector %q", step, pid, len(mails), nu.ConfirmSelector), flags
 				}
-			} else if r.UID() != pid {
+			} else if r.UID() != pid && !(faulted && r.UID() == "") {
 				return violation("C19", "not-logged-in-after-registration", "%s: without confirmation the new user %q must be logged in (session user %q)", step, pid, r.UID()), flags
 			}
 		}
@@ -335,7 +353,11 @@ func c19Gen(t *rapid.T) c19Case {
 				fields = append(fields, dup)
 			}
 		}
-		c.Reqs = append(c.Reqs, c19Req{Fields: fields})
+		rq := c19Req{Fields: fields}
+		if chance(t, "regfault", 12) {
+			rq.FaultAt = pick(t, "regfaultat", 1, 2, 3, 3, 4, 4, 5, 6)
+		}
+		c.Reqs = append(c.Reqs, rq)
 	}
 	return c
 }
